@@ -91,7 +91,7 @@ var keyFmtRe = regexp.MustCompile(`^\s*([A-Za-z]\w*):\s?(.*)$`)
 
 // keyValues pairs emitted keys with the source expressions of their values along one path.
 func keyValues(ems []emitEv) (nodeType string, kvs []emittedKV, closes int) {
-	pending := ""     // key whose value is still to come (scalar written by the next writeExpr, or an open list)
+	pending := "" // key whose value is still to come (scalar written by the next writeExpr, or an open list)
 	pendingList := false
 	for _, ev := range ems {
 		switch ev.Kind {
